@@ -57,16 +57,41 @@ class Injected(Exception):
         self.field = field
 
 
+class InjectedStop(StopIteration):
+    """A callback that fails with StopIteration (e.g. next() on an
+    exhausted iterator): still an Exception, so the policy applies."""
+
+    def __init__(self, rid, field):
+        StopIteration.__init__(self, 'injected StopIteration at row %r '
+                               'field %r' % (rid, field))
+        self.rid = rid
+        self.field = field
+
+
+class InjectedKey(KeyError):
+    def __init__(self, rid, field):
+        KeyError.__init__(self, 'injected KeyError at row %r field %r'
+                          % (rid, field))
+        self.rid = rid
+        self.field = field
+
+
+_KINDS = {'plain': None, 'stop': InjectedStop, 'key': InjectedKey}
+INJECTED = (InjectedStop, InjectedKey)
+
+
 class Faults(object):
-    def __init__(self, fail):
+    def __init__(self, fail, kind='plain', lazy=False):
         self.fail = fail          # set of (rid, field)
         self.made = []
+        self.cls = _KINDS[kind] or Injected
+        self.lazy = lazy
 
     def conv(self, field):
         def f(v, *row):
             rid = v // 10
             if (rid, field) in self.fail:
-                e = Injected(rid, field)
+                e = self.cls(rid, field)
                 self.made.append(e)
                 raise e
             return ('ok', v)
@@ -77,7 +102,7 @@ class Faults(object):
             v = rec[field]
             rid = v // 10
             if (rid, field) in self.fail:
-                e = Injected(rid, field)
+                e = self.cls(rid, field)
                 self.made.append(e)
                 raise e
             return ('ok', v)
@@ -87,18 +112,35 @@ class Faults(object):
         def f(row):
             rid = row[0]
             if (rid, 'row') in self.fail:
-                e = Injected(rid, 'row')
+                e = self.cls(rid, 'row')
                 self.made.append(e)
                 raise e
             return [rid, 'mapped', len(row)]
-        return f
+
+        def lazy(row):
+            # returns a lazy iterable that fails while it is consumed
+            rid = row[0]
+            n = len(row)
+
+            def cells():
+                yield rid
+                if (rid, 'row') in self.fail:
+                    e = Injected(rid, 'row')
+                    self.made.append(e)
+                    raise e
+                yield 'mapped'
+                yield n
+            return cells()
+        return lazy if self.lazy else f
 
     def rowgen(self, j):
         def g(row):
             rid = row[0]
             for i in range(3):
                 if (rid, 'row') in self.fail and i == j[rid % len(j)]:
-                    e = Injected(rid, 'row')
+                    e = self.cls(rid, 'row') \
+                        if self.cls is not InjectedStop else \
+                        Injected(rid, 'row')
                     self.made.append(e)
                     raise e
                 yield [rid, i]
@@ -122,6 +164,8 @@ def gen_case(rng, tier, g):
     return {'prop': PROP, 'form': form, 'n': n, 'errorvalue': ev,
             'where': where, 'consumers': rng.choice([1, 1, 2]),
             'j': [rng.randint(0, 2) for _ in range(3)],
+            'exc_kind': rng.choice(['plain', 'plain', 'stop', 'key']),
+            'lazy': rng.random() < 0.5,
             'extra_col': rng.random() < 0.5 and form != 'convertnumbers'}
 
 
@@ -376,7 +420,7 @@ class _Mismatch(Exception):
 
 def _match_cell(got, want, fl, ev):
     if isinstance(want, tuple) and want and want[0] == 'EXC':
-        if not isinstance(got, Injected):
+        if not isinstance(got, (Injected,) + INJECTED):
             return False
         return got.rid == want[1] and got.field == want[2] and \
             any(got is m for m in fl.made)
@@ -451,7 +495,8 @@ def run_case(case):
                     else:
                         want, raised = _model(case, fail, policy)
                     for mode in ('arg', 'config'):
-                        fl = Faults(fail)
+                        fl = Faults(fail, case.get('exc_kind', 'plain'),
+                                    case.get('lazy', False))
                         # the default is read at construction: set it, build,
                         # then set it to something else before iterating
                         config.failonerror = policy if mode == 'config' \
@@ -479,25 +524,35 @@ def run_case(case):
                                         'expected the failure of row %r'
                                         % (what, raised[1:]))
                                 if raised[0] == 'EXC':
-                                    if not (isinstance(exc, Injected)
-                                            and any(exc is m
+                                    inj = exc
+                                    if isinstance(exc, RuntimeError) and \
+                                            isinstance(exc.__cause__,
+                                                       InjectedStop):
+                                        # PEP 479: a StopIteration leaving a
+                                        # generator surfaces as RuntimeError
+                                        # caused by it
+                                        inj = exc.__cause__
+                                    if not (isinstance(inj, (Injected,)
+                                                       + INJECTED)
+                                            and any(inj is m
                                                     for m in fl.made)
-                                            and exc.rid == raised[1]
-                                            and exc.field == raised[2]):
+                                            and inj.rid == raised[1]
+                                            and inj.field == raised[2]):
                                         raise _Mismatch(
                                             '%s: surfaced %r, expected the '
                                             'injected exception object of '
                                             'row %r field %r'
                                             % (what, exc, raised[1],
                                                raised[2]))
-                                elif isinstance(exc, Injected) or \
-                                        isinstance(exc, StopIteration):
+                                elif isinstance(exc, (Injected,) + INJECTED) \
+                                        or isinstance(exc, StopIteration):
                                     raise _Mismatch('%s: surfaced %r'
                                                     % (what, exc))
                             _compare(rows, want, fl, ev, what)
     except _Mismatch as m:
         return outcome('violation', vclass='policy-mismatch', msg=str(m),
-                       sig={'form': form, 'vclass': 'policy-mismatch'},
+                       sig={'form': form, 'vclass': 'policy-mismatch',
+                            'exc_kind': case.get('exc_kind', 'plain')},
                        digest=log.hexdigest(), steps=nruns,
                        fired={'callback-raise': fired},
                        extra={'group': form})
@@ -512,7 +567,10 @@ def run_case(case):
         config.failonerror = saved
     return outcome('ok', digest=log.hexdigest(), steps=nruns,
                    probes={'form:' + form: 1, 'fault-points-x-policies-x-modes':
-                           nruns, 'two-consumers': case['consumers'] - 1},
+                           nruns, 'two-consumers': case['consumers'] - 1,
+                           'exc-kind:' + case.get('exc_kind', 'plain'): 1,
+                           'lazy-failing-rowmapper': int(
+                               bool(case.get('lazy')) and form == 'rowmap')},
                    fired={'callback-raise': fired}, nontrivial=n >= 1,
                    extra={'group': form})
 
@@ -539,6 +597,14 @@ def shrink_candidates(case):
     if case['extra_col']:
         c = copy.deepcopy(case)
         c['extra_col'] = False
+        yield c
+    if case.get('exc_kind', 'plain') != 'plain':
+        c = copy.deepcopy(case)
+        c['exc_kind'] = 'plain'
+        yield c
+    if case.get('lazy'):
+        c = copy.deepcopy(case)
+        c['lazy'] = False
         yield c
 
 
